@@ -131,6 +131,10 @@ func End() Outcome {
 		}
 		delete(savedFlags, name)
 	}
+	if oldWd != "" {
+		os.Chdir(oldWd)
+		oldWd = ""
+	}
 	if oldOut != nil {
 		os.Stdout = oldOut
 	}
@@ -242,11 +246,11 @@ func Trimpath(on bool) {
 	}
 }
 func Shared(p any)          {}
-func FrameFile(name string) {
-	if !strings.HasSuffix(name, "_test.go") {
-		out.Inapplicable = "synthetic helper frames are not reproduced natively"
-	}
-}
+// FrameFile tags the calling frame with a source file name for the symbolic
+// runtime.Caller stub. Natively the frames are real: harness helper functions
+// live in non-test files of the package and the harness entry is called from
+// the replay test file, which is exactly what the tags describe.
+func FrameFile(name string) {}
 
 // TestFileBase is the base name (without .go) of the test file the harness runs under.
 func TestFileBase() string {
@@ -331,3 +335,14 @@ func Not(a bool) bool        { return !a }
 func Implies(a, b bool) bool { return !a || b }
 
 func YAMLAssume(valid bool) {}
+
+// Chdir moves the process into a fresh temporary directory (the snapshot
+// location must not depend on the working directory); End moves back.
+func Chdir() {
+	if oldWd == "" {
+		oldWd, _ = os.Getwd()
+	}
+	os.Chdir(filepath.Dir(dir))
+}
+
+var oldWd string
